@@ -8,6 +8,8 @@
 From Lib Require Import Bytes Varint.
 From Model Require Import C12_DHash.
 From Proofs Require Import C12_DHash.
+From Model Require Import Compose_C12_C17.
+From Proofs Require Import Compose_C12_C17.
 From Coq Require Import List.
 Import ListNotations.
 Open Scope N_scope.
@@ -189,3 +191,54 @@ Theorem constants_match_source :
   length second_prefix = 64%nat /\ length key_prefix = 64%nat /\ length nonce_prefix = 64%nat.
 Proof. exact prefixes_match_source. Qed.
 Print Assumptions constants_match_source.
+
+(* ================================================================== *)
+(* Composition with C17 (pcache.GetResults, model/C17_GetResults.v, imported unchanged):
+   the abstract provider source of find_returns_indexed is instantiated with C17's record
+   type, rsrc = option (bytes -> option G.record) (None: metadata-only client).  D =
+   Model.C12_DHash, G = Model.C17_GetResults; pid_num names peer-ID bytes by the numbers
+   C17's records use (any naming; injective in the case files, which is what makes C17's
+   numeric comparison mean Go's peer.ID comparison). *)
+
+(* FindAsync with provider records = FindAsync without a pcache, every result expanded by
+   GetResults per the IPNI rules (G.spec_results): for ALL primitives, stores, sources. *)
+Theorem find_factors_through_get_results :
+  forall (pid_num : bytes -> N) (P : D.prims) (st : D.store) (src : rsrc) (mh : bytes),
+    find_rec pid_num P st src mh = (l <- D.find P st None mh ;; Ok (flat_map (expand pid_num src) l)).
+Proof. exact find_rec_factor. Qed.
+Print Assumptions find_factors_through_get_results.
+
+(* (1) For every well-formed index and every provider-record source, the reader-privacy find
+   over the store built from the index returns, for each indexed (pid, ctx, md) in order,
+   exactly G.spec_results of the record the source holds for pid -- the provider itself,
+   the contextual extended providers of that context ID, then the chain-level ones unless
+   overridden, own entries without new metadata skipped, missing metadata substituted --
+   and nothing for providers the source does not know. *)
+Theorem find_expands_per_ipni_rules :
+  forall (pid_num : bytes -> N) sha seal open,
+  D.law_sha_min sha -> D.law_seal_nonempty seal -> D.law_round_trip seal open -> D.law_collision_free sha ->
+  forall idx, D.wf_index idx ->
+  exists st, D.index_store (D.ideal sha seal open) idx = Ok st /\
+    forall src mh, find_rec pid_num (D.ideal sha seal open) st src mh =
+                   Ok (flat_map (entry_expansion pid_num src) (D.entries_for idx mh)).
+Proof. exact find_expands_indexed. Qed.
+Print Assumptions find_expands_per_ipni_rules.
+
+(* (2) Whatever the store answers and whatever records the source holds -- provider and
+   metadata lists of different lengths included (C17's get_results_no_panic) -- the
+   workflow returns results or an error, never a panic. *)
+Theorem find_never_panics_with_records :
+  forall (pid_num : bytes -> N) sha seal open st src mh,
+    D.store_total st -> is_panic (find_rec pid_num (D.ideal sha seal open) st src mh) = false.
+Proof. exact find_rec_no_panic. Qed.
+Print Assumptions find_never_panics_with_records.
+
+(* The pcache-mode statement of find_returns_indexed is the special case of records without
+   extended providers. *)
+Theorem find_returns_indexed_is_the_plain_record_case :
+  forall (pid_num : bytes -> N) (known : bytes -> option N) (e : D.entry),
+    entry_expansion pid_num (Some (fun pid => option_map (fun t => G.REC (G.AI (pid_num pid) t) None) (known pid))) e =
+    map (fun r : D.presult => let '(pid, ctx, md, t) := r in G.PR ctx (Some md) (G.AI (pid_num pid) t))
+        (D.entry_result (Some known) e).
+Proof. exact plain_records_agree. Qed.
+Print Assumptions find_returns_indexed_is_the_plain_record_case.
